@@ -190,10 +190,13 @@ def run(ctx):
     dimension_gate(ctx)
     validity_tables(ctx)
     yadrenko(ctx)
+    from .C03 import tpl_weights
+
+    tpl_weights(ctx, rule="R02.4")
 
     return (
         "Decides the structural clauses of C02: (R02.1) on every path of set_dim the final dimension is validated by check_dim before it is stored and a rejection produces an AttributeWarning; "
         "(R02.2) check_dim of every shipped class, folded over dim 1-5, accepts only dimensions in which the model is valid, and the declared bounds of every shape parameter, folded at dim 1-4, lie "
         "inside the literature validity interval (frozen value table; compared by value so any rewrite keeping or tightening validity is silent), defaults inside bounds; (R02.3) Yadrenko variants "
-        "route the lag through the chordal distance. NOT decided: non-negativity of the spectra themselves (analysis), |rho| <= 1."
+        "route the lag through the chordal distance; (R02.4) the truncated-power-law models are one superposition with weights len**(2 hurst) at all six sites (a validity-preserving mixture). NOT decided: non-negativity of the spectra themselves (analysis), |rho| <= 1."
     )
